@@ -147,16 +147,19 @@ prop(
     functions=[
         "protobuf::varint::read_varint (over Cursor<&[u8]> and over a one-byte-at-a-time BufRead)",
         "protobuf::value::ValueReader::{new, from_buf, skip, read_bytes, position}",
+        "protobuf::value::ValueReader::{read_i32, read_i64} over a BufRead that refills 3 bytes at a time (values straddling refills)",
         "protobuf::value::LimitReader::{new, sub_limit, check_has_bytes, read_bytes, read_string, skip, read_i64}",
         "protobuf::field::{Fields::new, Fields::next, Field::skip} (thorough tier, <= 6 bytes)",
     ],
     bounds=("read_varint: every buffer of 0..=11 symbolic bytes, unwind 13 (a varint is at most 10 bytes, so a terminating "
             "run needs at most 11 loop iterations: the unwinding assertion is the termination check); LimitReader: "
             "position, limits, field length and requested length all fully symbolic u64/usize; ValueReader skip/read_bytes: "
-            "buffer of 0..=8 bytes, requested length fully symbolic usize; Fields::next+Field::skip: 0..=6 bytes"),
+            "buffer of 0..=8 bytes, requested length fully symbolic usize; fixed-width reads: 0..=11 symbolic bytes, symbolic skip "
+            "of 0..=3 bytes first, 3-byte refill windows; Fields::next+Field::skip: 0..=6 bytes"),
     outside=("ModelProto::decode_fields and the other ~20 ONNX message decoders (recursion over Vec/String fields; a "
-             "whole-buffer walk did not finish in 10 min), recursion depth of nested messages, the BufReader<File> path "
-             "(ReadPos is arithmetic-only and shares ValueReader), allocation failure"),
+             "whole-buffer walk did not finish in 10 min), recursion depth of nested messages, the real BufReader<File> "
+             "(modelled by chunk-refilling BufRead stubs of 1, 3 and 4 bytes; ReadPos is arithmetic-only and shares ValueReader), "
+             "allocation failure"),
     assumptions=[
         "LimitReader harness: the underlying reader is a stub whose position is an arbitrary u64 and whose reads succeed "
         "(environment model); the pair (position, top-level limit) is assumed not to exceed u64::MAX, as for any real stream",
